@@ -129,12 +129,27 @@ class BeartypeValidatorBinaryABC(BeartypeValidator, metaclass=ABCMeta):
         # innermost indentation level.
         indent_level_inner_nested = indent_level_inner + CODE_INDENT_1
 
+        # True only if this object satisfies this binary validator *OR* "None"
+        # if this binary validator has already been short-circuited by a parent
+        # validator and testing this object against this binary validator
+        # raises an exception. Since the code type-checking this object
+        # short-circuited this binary validator, child validators of this binary
+        # validator are *NOT* guaranteed to be safely callable on this object.
+        is_obj_valid = None
+        if is_shortcircuited:
+            try:
+                is_obj_valid = self.is_valid(obj)
+            except Exception:
+                pass
+        else:
+            is_obj_valid = self.is_valid(obj)
+
         # Line diagnosing this object against this parent conjunction.
         line_outer_prefix = format_diagnosis_line(
             validator_repr='(',
             indent_level_outer=indent_level_outer,
             indent_level_inner=indent_level_inner,
-            is_obj_valid=self.is_valid(obj),
+            is_obj_valid=is_obj_valid,
         )
 
         # Line diagnosing this object against this first child validator, with
